@@ -38,6 +38,8 @@ pub struct ProbeState {
   pub silenced_at: Option<(u64, &'static str)>, // tick from which any delivery is a violation, and why
   pub in_callback: bool,
   pub required_lock: Option<usize>,
+  /// Eraser lockset: intersection of the lock sets held at every callback so far (None = no callback yet)
+  pub lockset: Option<Vec<usize>>,
 }
 
 pub struct TimerSlot {
@@ -83,6 +85,7 @@ pub struct Threads {
   pub waiting_for: Vec<Option<usize>>,       // per thread: lock it is about to acquire (suspended at Before)
   pub edges: BTreeSet<(usize, usize, usize)>, // (held, acquired, thread)
   pub lock_names: Vec<usize>,                // normalised lock ids in order of first use
+  pub lockset_check: bool,
 }
 
 #[derive(Default)]
@@ -198,10 +201,21 @@ impl Probe {
       let tick = w.tick;
       let vtime = w.now;
       let thread = w.threads.current;
-      let held_ok = match w.probes[id].required_lock {
+      let mut held_ok = match w.probes[id].required_lock {
         Some(l) => w.threads.held.get(thread).map_or(false, |h| h.contains(&l)),
         None => true,
       };
+      if w.threads.lockset_check {
+        let held: Vec<usize> = w.threads.held.get(thread).cloned().unwrap_or_default();
+        let ls = match w.probes[id].lockset.take() {
+          None => held,
+          Some(prev) => prev.into_iter().filter(|l| held.contains(l)).collect(),
+        };
+        if ls.is_empty() {
+          held_ok = false;
+        }
+        w.probes[id].lockset = Some(ls);
+      }
       let p = &mut w.probes[id];
       let mut bad = None;
       if p.terminated {
@@ -489,16 +503,26 @@ pub fn threads_enable(nthreads: usize, max_preemptions: u32) {
   verif_sync::set_yield_hook(Some(yield_hook));
 }
 
-/// monitor only (single logical thread): records held locks and order edges
-pub fn lock_monitor_enable() {
+/// monitor only (no pre-emption): records held locks and order edges for `nthreads`
+/// logical threads whose operations the harness runs one after the other
+pub fn lock_monitor_enable(nthreads: usize) {
   w(|w| {
     let t = &mut w.threads;
-    t.held = vec![vec![]];
-    t.waiting_for = vec![None];
-    t.active = vec![true];
-    t.pending = vec![VecDeque::new()];
+    t.held = vec![vec![]; nthreads];
+    t.waiting_for = vec![None; nthreads];
+    t.active = vec![false; nthreads];
+    t.pending = (0..nthreads).map(|_| VecDeque::new()).collect();
+    t.lockset_check = true;
   });
   verif_sync::set_lock_hook(Some(lock_hook));
+}
+
+pub fn set_current_thread(t: usize) {
+  w(|w| w.threads.current = t);
+}
+
+pub fn lockset_check(on: bool) {
+  w(|w| w.threads.lockset_check = on);
 }
 
 /// yield points only (no logical threads)
